@@ -101,6 +101,13 @@ def gen_cases(tier, seed):
                 yield C(w="hosvd_ranks", fam="exact-lowrank", true=true, shape=shape, dseed=int(rng.integers(0, 2 ** 31)), ranks=ranks, sequential=seq, dimorder=do_)
         yield C(w="hosvd_grid", fam="exact-lowrank", true=true, shape=shape, dseed=int(rng.integers(0, 2 ** 31)), tol=[1e-6, 1e-3, 0.1][int(rng.integers(0, 3))],
                 sequential=bool(rng.integers(0, 2)), dimorder=None)
+    # prescribed ranks that cut through a group of exactly equal eigenvalues (the ranks are still exactly the requested ones)
+    for shape in ([3, 3, 3], [4, 4], [4, 4, 2], [4, 4, 4]):
+        for dseed in (0, 1):
+            for ranks in ([1] * len(shape), [min(3, s_) for s_ in shape], [1] + [2] * (len(shape) - 1)):
+                ranks = [min(r_, s_) for r_, s_ in zip(ranks, shape)]
+                for seq in (True, False):
+                    yield C(w="hosvd_ranks", fam="tied", shape=shape, dseed=dseed, ranks=ranks, sequential=seq, dimorder=None)
     if True:
         shape = [3, 4, 2]
         for p in itertools.permutations(range(3)):
@@ -128,6 +135,12 @@ def gen_cases(tier, seed):
             for init in ("random", "nvecs", "given"):
                 yield C(w="tucker_als", fam="random", shape=shape, dseed=int(rng.integers(0, 2 ** 31)), ranks=ranks, init=init, scalar_rank=False, dimorder=do_,
                         maxiters=int(rng.integers(1, 5)), printitn=int(rng.choice([0, 1])), gseed=int(rng.integers(0, 2 ** 31)), singleton=True)
+    # Tucker-ALS with all ranks 1 from a start that is exactly orthogonal to the data in the first projection (the projected tensor is
+    # zero: any unit vector is a leading vector, the run recovers in the next sweep)
+    for shape, fib in (([4, 3, 3], [(1, 2), (2, 0)]), ([5, 3], [(1, 1)]), ([3, 4, 2, 2], [(1, 3), (2, 1), (3, 0)]), ([3, 3, 3], [(1, 0), (2, 2)])):
+        for mi in (1, 2, 4):
+            yield C(w="tucker_als", fam="zero-fibre", shape=shape, dseed=int(rng.integers(0, 2 ** 31)), ranks=[1] * len(shape), init="given", scalar_rank=False,
+                    dimorder=None, maxiters=mi, printitn=0, gseed=int(rng.integers(0, 2 ** 31)), orthogonal_start=fib)
     # Tucker-ALS
     nals = 60 if tier == "quick" else 600
     for i in range(nals):
@@ -190,6 +203,28 @@ def _data0(case):
             A = np.zeros(shape)
             for i_ in range(min(shape)):
                 A[(i_,) * len(shape)] = [2.0, 5.0, 3.0, 1.0, 4.0][i_ % 5]
+    elif case["fam"] == "tied":
+        # exactly repeated Gram eigenvalues: a superdiagonal with equal entries, or two identical independent blocks
+        if case["dseed"] % 2 == 0 or min(shape[:2]) < 4 or (len(shape) > 2 and shape[2] < 2):
+            A = np.zeros(shape)
+            w_ = [2.0, 2.0, 1.0, 1.0, 0.5]
+            for i_ in range(min(shape)):
+                A[(i_,) * len(shape)] = w_[i_ % 5]
+        else:
+            B = np.array([[2.0, 1.0], [1.0, 3.0]])
+            A = np.zeros(shape)
+            if len(shape) == 2:
+                A[:2, :2] = B
+                A[2:4, 2:4] = B
+            else:
+                A[:2, :2, 0] = B
+                A[2:4, 2:4, 1] = B
+    elif case["fam"] == "zero-fibre":
+        A = rng.standard_normal(shape)
+        idx = [slice(None)] * len(shape)
+        for m_, j_ in case["orthogonal_start"]:
+            idx[m_] = j_
+        A[tuple(idx)] = 0.0
     elif case["fam"] == "exact-lowrank":
         U = [np.linalg.qr(rng.standard_normal((s, s)))[0][:, :r_] for s, r_ in zip(shape, case["true"])]
         A = refops.ttm(rng.standard_normal(case["true"]), U, list(range(len(shape))))
@@ -286,6 +321,10 @@ def run_case(case, ctx):
         rng = np.random.default_rng(case["cseed"])
         if case["init"] == "given":
             init = [np.linalg.qr(rng.standard_normal((s, r_)))[0] for s, r_ in zip(shape, ranks)]
+            if case.get("orthogonal_start"):
+                # coordinate-vector start factors that pick out a fibre on which the data vanish: the first projection is exactly zero
+                for m_, j_ in case["orthogonal_start"]:
+                    init[m_] = np.eye(shape[m_], 1, -j_)
             idig = [u.copy() for u in init]
         else:
             init = case["init"]
